@@ -7,6 +7,7 @@ import (
 	"bytes"
 	"encoding/json"
 	"fmt"
+	"go/token"
 	"go/types"
 	"reflect"
 	"strconv"
@@ -57,8 +58,21 @@ func jsonNative(fr *frame, v value, t types.Type) (interface{}, error) {
 	if t == nil {
 		return nil, fmt.Errorf("json stub: untyped payload %T", v)
 	}
-	if findMethod(fr, t, "MarshalJSON") != nil || findMethod(fr, t, "MarshalText") != nil {
-		return nil, engineError{"json stub: payload type " + t.String() + " has its own marshaler"}
+	if findMethod(fr, t, "MarshalJSON") != nil {
+		return nil, engineError{"json stub: payload type " + t.String() + " has its own MarshalJSON"}
+	}
+	if mt := findMethod(fr, t, "MarshalText"); mt != nil {
+		// encoding.TextMarshaler: the real method runs in the interpreter, its text becomes a JSON string
+		res := call(fr.i, fr, token.NoPos, mt, []value{v}).(tuple)
+		if e, ok := res[1].(iface); ok && e.t != nil {
+			return nil, fmt.Errorf("json: error calling MarshalText for type %s", t.String())
+		}
+		b := res[0].([]value)
+		out := make([]byte, len(b))
+		for i, e := range b {
+			out[i] = fr.concValue(e, "json text payload").(uint8)
+		}
+		return string(out), nil
 	}
 	switch u := t.Underlying().(type) {
 	case *types.Basic:
